@@ -15,7 +15,9 @@ EXPLANATION = (
     "(no GT key, unknown ploidy, missing alleles); R2 -- the removed tag set covers every per-call phase carrier the VCF decoders "
     "in whatshap/vcf.py consult, is removed from header and every record, and the phased flag is cleared for every call; "
     "R3 -- the effect summary of unphase (all attribute/subscript stores, deletes and mutator calls) contains only the phase removal; "
-    "R4 -- every record read reaches the writer (no early exit, no skipping path)."
+    "R4 -- every record read reaches the writer (no early exit, no skipping path); "
+    "R5 -- every reader-to-writer copy of VCF records in the package makes sure the writer's header knows each record's contig "
+    "(a VCF need not declare its contigs; pysam refuses a record whose contig its header copy lacks)."
 )
 NOT_DECIDED = "Idempotence and unphase(phase(x)) = unphase(x) as equalities of files; htslib serialisation."
 ASSUMPTIONS = [
@@ -348,6 +350,8 @@ def r3(ctx):
                 why = "header record removed under key == 'phasing'" if ok else "header record removed without the key == 'phasing' guard"
             elif st.kind == "call" and st.method == "remove_header" and st.call.args and isinstance(st.call.args[0], ast.Name) and _loop_var_over_tags(st.stmt, st.call.args[0].id) and u(st.target).endswith(".formats"):
                 ok, why = True, "FORMAT definition of TAGS_TO_REMOVE removed from the header"
+            elif st.kind == "call" and st.method == "add" and u(st.target).endswith(".header.contigs") and _is_writer(fi.node, u(st.target)[: -len(".header.contigs")]) and len(st.call.args) == 1 and _is_record_contig(fi.node, st.call.args[0]):
+                ok, why = True, "the output header is told the contig of the record about to be written (no record or call is changed)"
             ctx.ob(fi.qual, "effect:%s" % st.text(), ok, fi.loc(st.stmt), "%s -- %s" % (st.text(), why))
         for c in ctx.prog.calls_in(fi.node):
             targets, how = ctx.resolve(c, fi)
@@ -367,6 +371,108 @@ def fresh_locals(fnode):
             if len(util.assignments_to(fnode, name)) == len(vals):
                 out.add(name)
     return out
+
+
+def _writer_ctor(v):
+    """VariantFile(out, mode='w', header=H): returns H (or None)"""
+    if isinstance(v, ast.Call) and u(v.func).endswith("VariantFile"):
+        kw = {k.arg: k.value for k in v.keywords if k.arg}
+        mode = kw.get("mode") or (v.args[1] if len(v.args) > 1 else None)
+        if isinstance(mode, ast.Constant) and isinstance(mode.value, str) and mode.value.startswith("w"):
+            return kw.get("header") or (v.args[3] if len(v.args) > 3 else None) or ast.Constant(value=None)
+    return None
+
+
+def _writers(fnode):
+    """{local name: (constructor call, header expression)} for the output VariantFiles of a function (assignment or with-item)"""
+    out = {}
+    for n in walk_function(fnode):
+        if isinstance(n, ast.Assign) and len(n.targets) == 1 and isinstance(n.targets[0], (ast.Name, ast.Attribute)) and _writer_ctor(n.value) is not None:
+            out[u(n.targets[0])] = (n.value, _writer_ctor(n.value))
+        elif isinstance(n, (ast.With, ast.AsyncWith)):
+            for it in n.items:
+                if it.optional_vars is not None and _writer_ctor(it.context_expr) is not None:
+                    out[u(it.optional_vars)] = (it.context_expr, _writer_ctor(it.context_expr))
+    return out
+
+
+def _is_writer(fnode, name):
+    return name in _writers(fnode)
+
+
+def _is_record_contig(fnode, e):
+    """record.contig / record.chrom of the loop variable of a record loop"""
+    if not (isinstance(e, ast.Attribute) and e.attr in ("contig", "chrom") and isinstance(e.value, ast.Name)):
+        return False
+    return any(isinstance(n, ast.For) and isinstance(n.target, ast.Name) and n.target.id == e.value.id for n in walk_function(fnode))
+
+
+def r5(ctx):
+    """A record can only be written if its contig is in the WRITER's header.  htslib adds a contig that has no ##contig line
+    to the reader's header while it parses the record; a writer built from `reader.header` holds a copy taken before that and
+    refuses the record (whatshap.vcf.missing_headers documents this; pysam issue 771).  ##contig lines are optional in VCF,
+    so every site that copies records from a VariantFile reader to a VariantFile writer must either repair the reader's
+    header from a scan of the file before the writer is built (the VcfAugmenter way), or declare the contig of each record
+    to the writer's header before writing it."""
+    sites = 0
+    for q, fi in sorted(ctx.prog.functions.items()):
+        if not q.startswith("whatshap."):
+            continue
+        ws = _writers(fi.node)
+        for wname, (ctor, hdr) in sorted(ws.items()):
+            if not (isinstance(hdr, ast.Attribute) and hdr.attr == "header"):
+                continue  # a header built from scratch declares what it writes (or is not a copy of a reader's)
+            sites += 1
+            rd = u(hdr.value)
+            cfg = ctx.cfg(fi)
+            # (a) repaired from a scan before the writer exists
+            aug = [c for c in ctx.prog.calls_in(fi.node) if u(c.func).endswith("augment_header") and c.args and u(c.args[0]) == "%s.header" % rd]
+            scanned = False
+            for c in aug:
+                srcs = set()
+                for a in c.args[1:]:
+                    if isinstance(a, ast.Name):
+                        for n_ in walk_function(fi.node):
+                            if isinstance(n_, ast.Assign) and any(isinstance(x_, ast.Name) and x_.id == a.id and isinstance(x_.ctx, ast.Store) for t_ in n_.targets for x_ in ast.walk(t_)):
+                                srcs.add(u(n_.value.func) if isinstance(n_.value, ast.Call) else u(n_.value))
+                    elif isinstance(a, ast.Starred) and isinstance(a.value, ast.Call):
+                        srcs.add(u(a.value.func))
+                if srcs and all(x.endswith("missing_headers") for x in srcs) and cfg.dominates(cfg.node_containing(c), cfg.node_containing(ctor)):
+                    scanned = True
+            # (b) each record's contig is declared to the writer before the record is written
+            declared = None
+            writes = [c for c in ctx.prog.calls_in(fi.node) if isinstance(c.func, ast.Attribute) and c.func.attr == "write" and u(c.func.value) == wname and c.args and isinstance(c.args[0], ast.Name)]
+            if not scanned and writes:
+                declared = True
+                for wcall in writes:
+                    rec = wcall.args[0].id
+                    lp = wcall
+                    while lp is not None and not (isinstance(lp, ast.For) and isinstance(lp.target, ast.Name) and lp.target.id == rec):
+                        lp = getattr(lp, "parent", None)
+                    if lp is None:
+                        declared = False
+                        break
+                    adds = [c for c in ast.walk(lp) if isinstance(c, ast.Call) and isinstance(c.func, ast.Attribute) and c.func.attr == "add" and u(c.func.value) == "%s.header.contigs" % wname and len(c.args) == 1 and u(c.args[0]) in ("%s.contig" % rec, "%s.chrom" % rec)]
+                    wn = cfg.node_containing(wcall)
+                    okp = False
+                    for a in adds:
+                        an = cfg.node_containing(a)
+                        # the only way round the declaration is the branch that found the contig already declared
+                        p_ = cfg.find_path(cfg.node_of(lp), wn, avoid_nodes={an}, start_after=True)
+                        if p_ is None:
+                            okp = True
+                        else:
+                            ga = guard_atoms(cfg, an)
+                            known = {("%s.%s in %s.header.contigs" % (rec, f_, wname), False) for f_ in ("contig", "chrom")}
+                            others = [g for g in ga if g not in known and g not in guard_atoms(cfg, cfg.node_of(lp))]
+                            inner = [g for g in others if g not in guard_atoms(cfg, wn)]
+                            okp = bool(ga & known) and not inner
+                    if not okp:
+                        declared = False
+            ok = scanned or bool(declared)
+            how = "the reader's header is completed from a scan of the file (missing_headers) before the writer copies it" if scanned else "every record's contig is declared to the writer's header before the record is written"
+            ctx.ob(fi.qual, "writer-knows-every-contig:%s" % wname, ok, fi.loc(ctor), how if ok else "%s copies %s.header before any record is read and nothing declares the records' contigs to it: on a VCF without ##contig lines (they are optional) htslib adds the contig to the reader's header only while parsing, the writer's copy lacks it and %s.write(record) fails" % (wname, rd, wname))
+    ctx.require(sites >= 2, "fewer than two reader-to-writer copies (VcfAugmenter, unphase) found")
 
 
 def r4(ctx):
@@ -396,7 +502,8 @@ RULES = [
     ("C13.R2", "removed tag set covers the decoders' carrier set; flag cleared", r2),
     ("C13.R3", "effect summary contains only the phase removal", r3),
     ("C13.R4", "every record is written; no early exit", r4),
+    ("C13.R5", "the output header knows the contig of every record it is given (##contig lines are optional)", r5),
 ]
 # instance floors: about 60% of the instances confirmed by hand on the reference tree -- a rule that suddenly matches far fewer
 # sites fails the run (exit 2); a clean-up that merges two sites into one does not
-FLOORS = {"C13.R1": 1, "C13.R2": 4, "C13.R3": 3, "C13.R4": 1}
+FLOORS = {"C13.R1": 1, "C13.R2": 4, "C13.R3": 3, "C13.R4": 1, "C13.R5": 2}
